@@ -215,4 +215,28 @@ example :
       = [.sub 1, .emit (.next 7), .unsub 1, .sub 2, .emit (.next 8), .unsub 2, .sub 3, .emit (.error "e"), .unsub 0, .unsub 3] := by
   decide
 
+/-! ### re-entrant outer emissions
+Every theorem above quantifies over ALL event lists. A re-entrant outer emission (the subscriber reacts to an element by
+pushing the next inner into the outer subject while an inner is still inside its own `subscribe` call) is just the next
+event of the list: the handlers do nothing after the point at which the nested call happens (`subscribe(inner)` is the last
+statement of the outer `on_next`, `observer.on_next(x)` the last of the inner one), so the flat list is the faithful trace —
+the correspondence replays such recorded runs through `mcM` with 0 mismatches. In particular `merge_maxc_bound`,
+`merge_queue_fifo` and `concat_map_blocks` cover them. -/
+
+/-- non-vacuity with a NESTED emission: max_concurrent = 1; inner 1 emits 7 inside its own subscribe, the consumer reacts by
+pushing inner 2 into the outer (4th event, delivered while inner 1 is still subscribing): inner 2 is queued — `active_count`
+already counts inner 1 — and started only when inner 1 completes. -/
+example :
+    run (mcM (α := Nat) 1) (hoInit {})
+      [.src 0 (.next (.obs 0)), .src 1 (.next (.val 7)), .src 0 (.next (.obs 1)), .src 1 (.next (.val 8)), .src 1 .completed,
+       .src 2 (.next (.val 9))]
+      = [.sub 1, .emit (.next 7), .emit (.next 8), .unsub 1, .sub 2, .emit (.next 9)] := by decide
+
+/-- the bound instantiated on that list, at every prefix -/
+example : ∀ k, k ≤ 6 →
+    ((final (mcM (α := Nat) 1) (hoInit {})
+      (([.src 0 (.next (.obs 0)), .src 1 (.next (.val 7)), .src 0 (.next (.obs 1)), .src 1 (.next (.val 8)), .src 1 .completed,
+         .src 2 (.next (.val 9))] : List (Ev (HV Nat))).take k)).p.live.filter (· != 0)).length ≤ 1 :=
+  fun k _ => merge_maxc_bound 1 _
+
 end C11
